@@ -48,7 +48,7 @@ func TestVerifC09(t *testing.T) {
 	rec := kit.Start(t, "C09", "prunecrash")
 	defer rec.Finish()
 	env := rec.Env
-	n := env.Pick(16, 96)
+	n := env.Pick(16, 48)
 	for i := 0; i < n; i++ {
 		if !env.Mine(i) {
 			continue
@@ -57,12 +57,12 @@ func TestVerifC09(t *testing.T) {
 	}
 }
 
+// c09Compression: "max" is deliberately not used — zstd's best-compression encoder allocates and
+// zeroes 35 MB on every repository open, which makes each of the thousands of commands of a
+// crash enumeration cost seconds; the compression level has no influence on prune's decisions.
 func c09Compression(rng *kit.RNG) (repository.CompressionMode, string) {
-	switch rng.Intn(4) {
-	case 0:
+	if rng.Chance(1, 3) {
 		return repository.CompressionOff, "off"
-	case 1:
-		return repository.CompressionMax, "max"
 	}
 	return repository.CompressionAuto, "auto"
 }
@@ -87,13 +87,14 @@ func c09Run(t *testing.T, rec *kit.Rec, idx int) {
 	restoreIdx := vSmallIndexes(c.SmallIndex)
 	defer restoreIdx()
 
-	h, err := newVHist(t, rec, rng, vhInit{Version: c.Version, Compression: comp, Files: rng.Range(10, 40), Big: rng.Range(1, 3)})
+	h, err := newVHist(t, rec, rng, vhInit{Case: idx, Version: c.Version, Compression: comp, Files: rng.Range(10, 40), Big: rng.Range(1, 3)})
 	defer h.Cleanup()
 	if err != nil {
 		rec.Violation("history-setup", err.Error(), c)
 		return
 	}
 	h.Cuts = true
+	h.SetYield(30)
 	fail := func(key, msg string) {
 		c.History = h.Log
 		rec.Violation(key, msg, c)
@@ -145,7 +146,7 @@ func c09Run(t *testing.T, rec *kit.Rec, idx int) {
 	}
 	// earlier forget (+ interrupted prune, + repair index, + one more backup)
 	if c.Mode == "prune" || rng.Chance(1, 3) {
-		if f, ok := h.DrawForget(); ok {
+		if f, ok := h.DrawForget(true); ok {
 			if r := h.Forget(f, false); r.Err != nil {
 				fail("history-setup", "forget failed: "+r.Err.Error())
 				return
@@ -184,7 +185,7 @@ func c09Run(t *testing.T, rec *kit.Rec, idx int) {
 	popts, _ := h.PruneOpts(false)
 	var fsel vhForget
 	if c.Mode == "forget-prune" {
-		f, ok := h.DrawForget()
+		f, ok := h.DrawForget(true)
 		if !ok {
 			c.Mode = "prune"
 		} else {
@@ -210,6 +211,17 @@ func c09Run(t *testing.T, rec *kit.Rec, idx int) {
 		c.Observed = "prune " + vhPruneDesc(popts)
 	}
 	before := h.Expect(h.e)
+	if c.Mode == "prune" {
+		// a prune without anything to do (e.g. everything already done by the interrupted prune of
+		// the history, or a tolerant --max-unused) has a journal of lock operations only: look at
+		// a dry run first and fall back to a full prune in that case
+		de := h.e.onState(h.e.vbe.Snapshot().WithoutLocks(), false)
+		if _, err := de.Prune(popts); err == nil && len(kit.Mutations(de.vbe.Journal())) <= 2 {
+			popts = PruneOptions{MaxUnused: "0"}
+			c.Observed = "prune " + vhPruneDesc(popts)
+			rec.Count("observed_options_replaced_by_full_prune", 1)
+		}
+	}
 	var oout vOut
 	base, muts, oerr := h.e.vJournaled(func() error {
 		var err error
@@ -283,6 +295,7 @@ func c09Run(t *testing.T, rec *kit.Rec, idx int) {
 		return popts
 	}
 
+	t.Logf("case %d: history done (%d steps), observed %s: %d mutations, state %d files", idx, len(h.Log), c.Observed, len(muts), len(final))
 	// ---- crash states: all prefixes + sampled cuts
 	states := vCrashStates(base, muts, env.Pick(6, 20), rec.RNG("cuts", idx))
 	rr := rec.RNG("rerun", idx)
@@ -304,7 +317,7 @@ func c09Run(t *testing.T, rec *kit.Rec, idx int) {
 		if err != nil {
 			rec.Count("rerun_prune_returned_error", 1)
 			if rec.Env.Thorough() || si%5 == 0 {
-				rec.Note(fmt.Sprintf("re-run prune error example: %v %s", err, tail(out.Stderr, 160)))
+				rec.Note("re-run prune error example: %.100s %.200s", err.Error(), tail(out.Stderr, 160))
 			}
 		}
 		if probs := c09Judge(h.e, re.vbe.Snapshot().WithoutLocks(), expect); len(probs) > 0 {
@@ -318,6 +331,7 @@ func c09Run(t *testing.T, rec *kit.Rec, idx int) {
 		}
 	}
 
+	t.Logf("case %d: %d crash states judged", idx, len(states))
 	// ---- failure / cancellation: re-execution from the base state
 	var positions []int
 	if env.Thorough() {
@@ -388,7 +402,7 @@ func c09Run(t *testing.T, rec *kit.Rec, idx int) {
 			}
 			if uerr != nil {
 				rec.Count("unsafe_recovery_failed", 1)
-				rec.Note(fmt.Sprintf("unsafe-recovery prune error example: %v %s", uerr, tail(out.Stderr, 160)))
+				rec.Note("unsafe-recovery prune error example: %.100s %.200s", uerr.Error(), tail(out.Stderr, 160))
 			} else {
 				if probs := c09Judge(h.e, ue.vbe.Snapshot().WithoutLocks(), expect); len(probs) > 0 {
 					rec.Violation("unsafe-recovery-completed", fmt.Sprintf("%s --unsafe-recover-no-free-space completed: %s", c.Observed, strings.Join(probs, " | ")), c)
